@@ -106,14 +106,15 @@ pub fn is_positive_definite(m: &[f64]) -> bool {
     true
 }
 
-/// Calculates the parity of a swap permutation array ipiv (e.g. that you get as an output from
-/// Lapack).
+/// Calculates the parity (sign) of a permutation given as a permutation vector `ipiv` (e.g. the
+/// pivots that you get as an output from `lu`).
 pub fn ipiv_parity(ipiv: &[i32]) -> i32 {
     let mut perm = ipiv.to_owned();
     let mut par = 0;
     for i in 0..perm.len() {
-        if perm[i] != i as i32 {
+        while perm[i] != i as i32 {
             let j = perm[i] as usize;
+            assert!(perm[j] != perm[i], "ipiv is not a permutation");
             perm.swap(i, j);
             par += 1;
         }
